@@ -256,6 +256,20 @@ def replay_concretely(ob, cex, excluded):
     return out
 
 
+def real_fs_replay(ob, cex, excluded):
+    from . import scen
+    scen.BACKEND = 'real'
+    try:
+        reason = replay_concretely(ob, cex, excluded)
+    finally:
+        scen.BACKEND = 'model'
+    if reason.startswith('EXC:RealBackendNotApplicable'):
+        return 'not replayable on the real file system: ' + reason.split(' :: ', 1)[-1]
+    if reason:
+        return 'REPRODUCED on the real file system: ' + reason[:600]
+    return 'NOT reproduced on the real file system (model-only counterexample: check the stub)'
+
+
 def run_check(prop, tier, module_name, seed=0):
     t_start = time.time()
     hmod = importlib.import_module(module_name)
@@ -351,14 +365,13 @@ def run_check(prop, tier, module_name, seed=0):
     if todo and not violations:
         inconclusive.append('known-finding exclusion loop did not converge')
 
-    # real file system confirmation of violations, where the harness can express them
+    # second replay: the same counterexample with the real os/shutil on a real (tmpfs, chroot-ed) file system,
+    # for every harness whose scenario needs no crash/fault/scheduling hook
     for v in violations:
-        rr = getattr(hmod, 'real_replay', None)
-        if rr is not None:
-            try:
-                v['real_fs'] = rr(v)
-            except Exception as e:
-                v['real_fs'] = 'real-fs replay failed: %s' % (e,)
+        ob = [o for o in obs if o.name == v['obligation']][0]
+        if ob.kind != 'crosshair':
+            continue
+        v['real_fs'] = real_fs_replay(ob, v['counterexample'], excluded)
 
     for k in known:
         if k['key'] in hit_patterns:
@@ -412,6 +425,8 @@ def run_check(prop, tier, module_name, seed=0):
                 json.dump(v, f, indent=1, default=repr)
             print('VIOLATION property=%s replay=%s' % (prop, path))
             print('  ' + v['reason'][:800])
+            if v.get('real_fs'):
+                print('  ' + v['real_fs'][:300])
         return 1
     if inconclusive:
         for i in inconclusive:
